@@ -495,6 +495,8 @@ def parse_template(path):
                     nodes.append(("text", ("prelude", w[1], k + 1), tl))
             elif w[0] == "bundle":
                 nodes.append(("meta", i + 1, body))
+            elif w[0] == "tags":
+                nodes.append(("tags", i + 1, parse_tags(" ".join(w[1:]))))
             elif w[0] == "#":
                 pass
             else:
@@ -829,7 +831,9 @@ def assemble_fn(spec, bundle, out, canary=False):
         out.emit(a, ("tmpl", spec.tmpl_line))
     emit_range(sf, out, it.start, it.end, inserts, replaces, where)
     out.fns.append({"fn": fnkey, "file": spec.file, "lines": [sf.line_of(it.start), sf.line_of(it.end - 1)],
-                    "tags": spec.tags, "tmpl_line": spec.tmpl_line})
+                    "tags": spec.tags, "tmpl_line": spec.tmpl_line,
+                    "external_body": any("external_body" in a for a in spec.attrs),
+                    "canary": spec.opts.get("canary", "check")})
 
 
 def emit_range(sf, out, lo, hi, inserts, replaces, where):
@@ -1031,7 +1035,8 @@ def assemble_region(spec, bundle, out, sf, it, canary):
     out.dropped.append("%s: region lines %d-%d lifted; remainder of the function (lines %d-%d) not verified" % (
         where, la, lb, sf.line_of(it.start), sf.line_of(it.end - 1)))
     out.fns.append({"fn": fnkey, "file": spec.file, "lines": [la, lb], "tags": spec.tags,
-                    "tmpl_line": spec.tmpl_line, "region": True})
+                    "tmpl_line": spec.tmpl_line, "region": True, "external_body": False,
+                    "canary": spec.opts.get("canary", "check"), "verus_name": spec.opts.get("name")})
 
 
 def assemble_item(node, out):
@@ -1081,6 +1086,10 @@ def assemble_item(node, out):
     emit_range(sf, out, it.start, it.end, {}, replaces, where)
 
 
+class FnLines(list):
+    pass
+
+
 def assemble(template_path, canary=False):
     bundle = os.path.splitext(os.path.basename(template_path))[0]
     out = Out()
@@ -1088,6 +1097,7 @@ def assemble(template_path, canary=False):
     nodes = parse_template(template_path)
     pending_hoist = []
     meta = {}
+    tag_regions = []
     # two passes: functions first into sub-buffers so hoisted items can be emitted anywhere
     bufs = []
     for node in nodes:
@@ -1110,10 +1120,19 @@ def assemble(template_path, canary=False):
             w = node[2].split(None, 2)
             if len(w) >= 3:
                 meta[w[1]] = w[2]
-        bufs.append(("lines", sub.lines))
+        elif node[0] == "tags":
+            tag_regions.append((node[1], node[2]))
+        if node[0] == "fn":
+            fl = FnLines(sub.lines)
+            fl.fn = out.fns[-1]
+            bufs.append(("lines", fl))
+        else:
+            bufs.append(("lines", sub.lines))
     used_hoist = set()
     for kind, payload in bufs:
         if kind == "lines":
+            if payload and isinstance(payload, FnLines):
+                payload.fn["asm_lines"] = [len(out.lines) + 1, len(out.lines) + len(payload)]
             out.lines.extend(payload)
         else:
             _, tl, rel, fn = payload
@@ -1127,7 +1146,8 @@ def assemble(template_path, canary=False):
     linemap = [o for _, o in out.lines]
     return {
         "bundle": bundle, "text": text, "linemap": linemap, "clauses": out.clauses, "fns": out.fns,
-        "normalisations": out.norm, "dropped": out.dropped, "meta": meta,
+        "normalisations": out.norm, "dropped": out.dropped, "meta": meta, "tag_regions": tag_regions,
+        "template": template_path,
     }
 
 
